@@ -158,3 +158,21 @@ PROPERTY_ASSUMPTIONS["C09"] = [
 M("C09", "c09_m_slip_roundtrip", ["Slip::serialize_for_net", "Slip::deserialize_from_net"], "every slip: 33-byte key, amount, block id, tx ordinal, slip index, all 10 slip types symbolic; one query per wire field")
 M("C09", "c09_m_tx_counts_agree", ["Transaction::deserialize_from_net (header section)", "Transaction::serialize_for_net_with_hop (accepted counts: <=255 inputs/outputs)"],
   "count fields symbolic with inputs, outputs <= 255, message <= 2^20, hops <= 64, buffer length exactly the encoded size; element loops cut at the first iteration")
+
+# ============================================================================== C06 / C08 gates / C13 (Block::validate exploration)
+BVX = "saito_core::core::consensus::block::Block::validate (async body, every poll Ready; all callees uninterpreted: consensus values, parent block, configuration and crypto verdicts are free values)"
+PROPERTY_ASSUMPTIONS["C06"] = [
+    "engine M: all paths of Block::validate's body (about 1500) with free callee results; the claim is about paths on a full node (is_spv_mode false) for a block that is not a ghost block and whose parent, if known, is not a ghost block (validate returns true early when the parent is a ghost block - see DESIGN.md)",
+    "merkle construction (collision freedom of the tree) and hash derivation are outside this revision's claim: the obligations show that the signed header root is compared with a root recomputed from the carried transactions, that the creator's signature over pre_hash is required, and that every carried transaction is validated",
+]
+M("C06", "c06_validate_sig_gate", [BVX], "every path of the body returning true; verify_signature's verdict free")
+M("C06", "c06_validate_root_gate", [BVX], "every path returning true; generate_merkle_root's result and self.merkle_root free 32-byte values")
+M("C06", "c06_validate_txs_gate", [BVX], "every path returning true; the transaction sweep's verdict free")
+PROPERTY_ASSUMPTIONS["C08"] += ["gates: all paths of Block::validate with free callee results (same exploration and path selection as C06)"]
+M("C08", "c08_block_work_gate", [BVX, "BurnFee::return_routing_work_needed_to_produce_block_in_nolan (uninterpreted)"], "every path returning true with a known non-ghost parent; total_work and the requirement free u64")
+M("C08", "c08_block_gt_gate", [BVX, "GoldenTicket::validate (uninterpreted)"], "every path returning true on which a golden ticket is examined")
+PROPERTY_ASSUMPTIONS["C13"] = [
+    "engine M gates only: the validator requires the block's rebroadcast commitment to equal the recomputed one, and the in-block double-spend scan treats ATR transactions like any other spender. Which outputs are selected for rebroadcast, their amounts, 'exactly once' and expiry over histories are outside the claim",
+]
+M("C13", "c13_validate_rebroadcast_gate", [BVX], "every path returning true with validate_against_utxo = true; both commitments free values")
+M("C13", "c13_atr_inputs_recorded", [CLO], "ATR-typed transactions with 1..=2 inputs, one arbitrary key already recorded for the block")
